@@ -39,6 +39,11 @@ class ScanHooks(Hooks):
         self.undecided = []
 
     def decide(self, interp, cond):
+        if cond.kind == "truthy" and cond.args and isinstance(cond.args[0], ListV):
+            # `if candidates:` / `if not candidates:`  ==  len(candidates) > 0
+            if not self.at_least:
+                return self.value > 0
+            return True if self.value > 0 else None
         if cond.kind == "cmp":
             op, l, r = cond.args
             d = l - r
@@ -113,7 +118,7 @@ def scan(ctx, repo, fname, expect_guard, expect_elem):
         else:
             got = ("other", vstr(res)[:200])
         ok = got[0] == spec and (spec != "raise" or got[1] == ("ValueError",))
-        if got[0] == "other" and "TOP" in str(got[1]):
+        if got[0] == "other":
             ctx.inconclusive("TABLE", oid, f"{fname}: outcome for {label} not derived", fi.where, witness=str(got[1]))
         else:
             ctx.check(ok, "TABLE", oid, f"{fname}: {label} -> "
